@@ -159,6 +159,14 @@ def allDigits (s : List Char) : Bool := s.all Char.isDigit
 
 def digitsToNat (s : List Char) : Nat := s.foldl (fun a c => a * 10 + (c.toNat - 48)) 0
 
+/-- CPython's default `sys.get_int_max_str_digits()`: `int(s)` raises `ValueError` for a decimal
+string with more digits (the `try/except ValueError` around `int(pp_line)` turns that into
+"invalid #line directive") -/
+def pyIntMaxStrDigits : Nat := 4300
+
+/-- `int(pp_line)` succeeds -/
+def pyIntOk (s : List Char) : Bool := allDigits s && decide (s.length ≤ pyIntMaxStrDigits)
+
 /-- outcome of `_handle_ppline`, computed on the rest of the directive line (after the `#`) -/
 inductive PpLine where
   | ok (lineno : Nat) (file : Option String)
@@ -199,7 +207,7 @@ def handlePpLine (cfg : LexCfg) (line : List Char) : PpLine :=
     let l5 := l4.drop w2
     let p5 := p3 + n + w2
     match l5 with
-    | [] => if allDigits ppLine then .ok (digitsToNat ppLine) none else .badInt
+    | [] => if pyIntOk ppLine then .ok (digitsToNat ppLine) none else .badInt
     | d :: _ =>
     if d != '"' then .failAt "invalid #line directive" p5 else
     match reMatch cfg.uni cfg.strLit l5 with
@@ -208,7 +216,7 @@ def handlePpLine (cfg : LexCfg) (line : List Char) : PpLine :=
       let fname := String.ofList (stripQuotes (l5.take m))
       match ppFlags cfg (l5.length + 1) (l5.drop m) (p5 + m) with
       | some off => .failAt "invalid #line directive" off
-      | none => if allDigits ppLine then .ok (digitsToNat ppLine) (some fname) else .badInt
+      | none => if pyIntOk ppLine then .ok (digitsToNat ppLine) (some fname) else .badInt
 
 /-- `#line` / linemarker branch: `self._pos += 1; self._handle_ppline()`; `tl` is the text after `#` -/
 def stepLineDirective (cfg : LexCfg) (st : LexState) (tl : List Char) : List Ev × LexState :=
